@@ -87,6 +87,8 @@ class Proj:
         with warnings.catch_warnings():
             warnings.simplefilter("ignore")
             tree = pm.get_ast()
+            from rope.refactor import patchedast
+            patchedast.patch_ast(tree, src)       # what SimilarFinder does first; a no-op on a patched tree
             c19.number_tree(tree)
             r = restructure.Restructure(self.project, pattern, goal, args={w: "exact" for w in exact})
             try:
@@ -99,6 +101,57 @@ class Proj:
         if new is None:
             return 0, "", tree
         return 1, new, tree
+
+
+def restructure_reuse_fails(obj):
+    """one Restructure object asked twice, the module edited through rope in between: the second answer must be
+    the answer of a fresh Restructure object on the new contents"""
+    from rope.refactor import restructure, similarfinder
+    proj = Proj()
+    try:
+        args = {w: "exact" for w in obj["exact"]}
+
+        def contents(changes):
+            new = None
+            for ch in changes.changes:
+                new = ch.new_contents
+            return new
+        with warnings.catch_warnings():
+            warnings.simplefilter("ignore")
+            proj.mod.write(obj["source"])
+            r = restructure.Restructure(proj.project, obj["user"], obj["goal"], args=args)
+            try:
+                r.get_changes()
+                proj.mod.write(obj["source2"])
+                second = contents(r.get_changes())
+                fresh = contents(restructure.Restructure(proj.project, obj["user"], obj["goal"], args=args).get_changes())
+            except similarfinder.BadNameInCheckError:
+                return None
+        if second != fresh:
+            return "second get_changes() on one Restructure object gives %r, a fresh object gives %r" % (
+                (second or "")[:120], (fresh or "")[:120])
+        return None
+    finally:
+        proj.close()
+
+
+def run_reuse(ctx, cases):
+    for case in cases:
+        src2 = "pass  # moved\n" + case["source"] if ctx.rng.random() < 0.6 else case["source"].replace("\n", "\n\n", 1)
+        obj = {"kind": "restructure-reuse", "source": case["source"], "source2": src2, "user": case["user"],
+               "model": case["model"], "exact": case["exact"] if case["driver"] == "restructure" else [], "goal": case["goal"]}
+        try:
+            bad = restructure_reuse_fails(obj)
+        except Exception as e:
+            if type(e).__name__ == "MismatchedTokenError":
+                continue
+            bad = "%s: %s" % (type(e).__name__, e)
+        ctx.case(("restructure-reuse", obj["source"], obj["user"], obj["goal"]), nontrivial=True)
+        ctx.count("restructure_reuse:" + ("differs" if bad else "same"))
+        if bad:
+            ctx.violation(dict(obj, category="restructure-reuse", observed=bad), "C19 Restructure re-used: " + bad[:240])
+        if ctx.too_many(8):
+            break
 
 
 def run_replace(src, pattern, goal):
@@ -339,6 +392,15 @@ def oracle(case, code, text, tree):
 
 
 def classify(case, tree, pat, goal_ast, exact, instances, is_stmt, expected, shape, code, got=None, new_text=None):
+    """structural reason of a failed comparison; total: whatever goes wrong while looking for a known reason
+    means that none was found"""
+    try:
+        return _classify(case, tree, pat, goal_ast, exact, instances, is_stmt, expected, shape, code, got, new_text)
+    except Exception:
+        return "meaning"
+
+
+def _classify(case, tree, pat, goal_ast, exact, instances, is_stmt, expected, shape, code, got=None, new_text=None):
     """structural reason of a failed tree comparison; 'meaning' = none of the known ones"""
     src = case["source"]
     if shape:
@@ -673,6 +735,8 @@ def run(ctx):
                 pairs.append((goal_ast, inst[0][2], {k: case[k] for k in REPLAY_KEYS}))
         c19_prec.run(ctx, pairs)
     if not ctx.too_many(8):
+        run_reuse(ctx, [c for c, r in zip(cases, results) if r["error"] is None and r.get("code") == 1][:ctx.scale(40, 300)])
+    if not ctx.too_many(8):
         run_make_pattern(ctx)
     if not ctx.too_many(8):
         from harness import c19_template
@@ -787,6 +851,8 @@ def replay(ctx, obj):
         return bool(r["oracle"]) and r["oracle"][1] is not None
     if kind == "finder-reuse":
         return finder_reuse_fails(obj)
+    if kind == "restructure-reuse":
+        return bool(restructure_reuse_fails(obj))
     raise ValueError("unknown replay kind %r" % kind)
 
 
